@@ -395,56 +395,230 @@ def _dir_truth(t, inc, gi):
     return None
 
 
+class _SliceEval:
+    """Abstract execution of a line accessor's __getitem__ for a slice subscript.  Scenario = which components of the
+    slice are absent and the sign of the step; values: 'NONE', ('GIVEN', component), ('EXT', min|max|first|last, offset),
+    ('STEP', 'abs'|'raw'|'const+'|..), booleans.  Every test on the way must be decidable from the scenario - an
+    undecidable one is an idiom this rule does not know (AnalysisError), never a verdict."""
+
+    class Stop(Exception):
+        pass
+
+    def __init__(self, gi, scen):
+        self.gi, self.scen = gi, scen          # scen: {'start': present?, 'stop': present?, 'step': None | '+' | '-'}
+        self.param = [p_ for p_ in gi.params if p_ != 'self'][0]
+        self.env = {}
+        self.range_args = None
+        self.sites = {}
+
+    def comp(self, name):
+        if name == 'step':
+            return 'NONE' if self.scen['step'] is None else ('GIVEN', 'step')
+        return ('GIVEN', name) if self.scen[name] else 'NONE'
+
+    def ev(self, e):
+        while isinstance(e, ast.Call) and U(e.func) in ('int', 'np.int64', 'np.int32') and len(e.args) == 1:
+            e = e.args[0]
+        if isinstance(e, ast.Constant):
+            return 'NONE' if e.value is None else ('CONST', e.value)
+        if isinstance(e, ast.Name):
+            if e.id in self.env:
+                return self.env[e.id]
+            return ('?', e.id)
+        if isinstance(e, ast.Attribute) and isinstance(e.value, ast.Name) and e.value.id == self.param and \
+                e.attr in ('start', 'stop', 'step'):
+            return self.comp(e.attr)
+        if isinstance(e, ast.IfExp):
+            t = self.truth(e.test)
+            return self.ev(e.body if t else e.orelse)
+        if isinstance(e, ast.Call) and U(e.func).split('.')[-1] in ('abs', 'absolute', 'fabs') and len(e.args) == 1:
+            v = self.ev(e.args[0])
+            if isinstance(v, tuple) and v[0] == 'STEP':
+                return ('STEP', 'abs')
+            if isinstance(v, tuple) and v[0] == 'CONST':
+                return ('CONST', abs(v[1]))
+            return ('?', U(e))
+        if isinstance(e, ast.Call) and U(e.func).split('.')[-1] in ('min', 'max', 'amin', 'amax') and e.args and 'keys_object' in U(e.args[0]):
+            return ('EXT', 'min' if 'min' in U(e.func).split('.')[-1] else 'max', 0)
+        if isinstance(e, ast.Call) and isinstance(e.func, ast.Attribute) and e.func.attr in ('min', 'max') and \
+                'keys_object' in U(e.func.value) and not e.args:
+            return ('EXT', e.func.attr, 0)
+        if isinstance(e, ast.Subscript) and 'keys_object' in U(e.value):
+            if U(e.slice) == '0':
+                return ('EXT', 'first', 0)
+            if U(e.slice) == '-1':
+                return ('EXT', 'last', 0)
+            return ('KEY', U(e.slice))
+        if isinstance(e, ast.BinOp) and isinstance(e.op, (ast.Add, ast.Sub)):
+            l, r = self.ev(e.left), self.ev(e.right)
+            if isinstance(l, tuple) and l[0] == 'EXT' and isinstance(r, tuple) and r[0] == 'CONST':
+                return ('EXT', l[1], l[2] + (r[1] if isinstance(e.op, ast.Add) else -r[1]))
+            if isinstance(l, tuple) and isinstance(r, tuple) and l[0] == 'CONST' and r[0] == 'CONST':
+                return ('CONST', l[1] + r[1] if isinstance(e.op, ast.Add) else l[1] - r[1])
+            if isinstance(e.op, ast.Sub) and isinstance(l, tuple) and isinstance(r, tuple) and \
+                    l in (('KEY', '1'),) and r == ('EXT', 'first', 0):
+                return ('STEP', 'raw')
+            return ('?', U(e))
+        if isinstance(e, ast.UnaryOp) and isinstance(e.op, ast.USub):
+            v = self.ev(e.operand)
+            if isinstance(v, tuple) and v[0] == 'CONST':
+                return ('CONST', -v[1])
+            return ('?', U(e))
+        if isinstance(e, (ast.Compare, ast.BoolOp)) or (isinstance(e, ast.UnaryOp) and isinstance(e.op, ast.Not)):
+            return ('BOOL', self.truth(e))
+        return ('?', U(e))
+
+    def truth(self, t):
+        if isinstance(t, ast.UnaryOp) and isinstance(t.op, ast.Not):
+            return not self.truth(t.operand)
+        if isinstance(t, ast.BoolOp):
+            if isinstance(t.op, ast.Or):
+                for v in t.values:
+                    if self.truth(v):
+                        return True
+                return False
+            for v in t.values:
+                if not self.truth(v):
+                    return False
+            return True
+        if isinstance(t, ast.Call) and U(t.func) == 'isinstance' and len(t.args) == 2 and U(t.args[0]) == self.param and \
+                U(t.args[1]) == 'slice':
+            return True
+        if isinstance(t, ast.Name):
+            v = self.ev(t)
+            if isinstance(v, tuple) and v[0] == 'BOOL':
+                return v[1]
+            raise AnalysisError('%s: truth of `%s` is not decided by the slice scenario' % (self.gi.qualname, t.id))
+        if isinstance(t, ast.Compare) and len(t.ops) == 1:
+            l, op, r = self.ev(t.left), t.ops[0], self.ev(t.comparators[0])
+            if isinstance(op, (ast.Is, ast.IsNot, ast.Eq, ast.NotEq)) and (l == 'NONE' or r == 'NONE'):
+                o = r if l == 'NONE' else l
+                if o == 'NONE':
+                    same = True
+                elif isinstance(o, tuple) and o[0] in ('GIVEN', 'EXT', 'CONST', 'STEP', 'KEY'):
+                    same = False
+                else:
+                    raise AnalysisError('%s: `%s` is not decided by the slice scenario' % (self.gi.qualname, U(t)[:60]))
+                return same if isinstance(op, (ast.Is, ast.Eq)) else not same
+            if l == ('GIVEN', 'step') and r == ('CONST', 0) or r == ('GIVEN', 'step') and l == ('CONST', 0):
+                pos = self.scen['step'] == '+'
+                flip = r == ('GIVEN', 'step')
+                if isinstance(op, (ast.Gt, ast.GtE)):
+                    return pos if not flip else not pos
+                if isinstance(op, (ast.Lt, ast.LtE)):
+                    return (not pos) if not flip else pos
+        raise AnalysisError('%s: `%s` is not decided by the slice scenario' % (self.gi.qualname, U(t)[:60]))
+
+    def run(self, body):
+        for st in body:
+            self.stmt(st)
+
+    def stmt(self, st):
+        for r in [x for x in ast.walk(st) if isinstance(x, ast.Call) and U(x.func) == 'range' and not isinstance(st, (ast.If, ast.For))]:
+            args = r.args
+            if len(args) == 1 and isinstance(args[0], ast.Starred):
+                raise _SliceEval.Stop()     # range(*subscript.indices(..)): ordinal slicing, no defaults of its own
+            if len(args) == 3:
+                self.range_args = [self.ev(a) for a in args]
+                self.range_node = st
+                raise _SliceEval.Stop()
+        if isinstance(st, ast.Assign) and len(st.targets) == 1:
+            t = st.targets[0]
+            if isinstance(t, ast.Name):
+                self.env[t.id] = self.ev(st.value)
+                self.sites[t.id] = st
+            elif isinstance(t, ast.Tuple) and isinstance(st.value, ast.Tuple) and len(t.elts) == len(st.value.elts):
+                vals = [self.ev(v) for v in st.value.elts]
+                for n_, v in zip(t.elts, vals):
+                    if isinstance(n_, ast.Name):
+                        self.env[n_.id] = v
+                        self.sites[n_.id] = st
+            return
+        if isinstance(st, ast.If):
+            self.run(st.body if self.truth(st.test) else st.orelse)
+            return
+        if isinstance(st, ast.For):
+            for r in [x for x in ast.walk(st.iter) if isinstance(x, ast.Call) and U(x.func) == 'range' and len(x.args) == 3]:
+                self.range_args = [self.ev(a) for a in r.args]
+                self.range_node = st
+                raise _SliceEval.Stop()
+            return
+        if isinstance(st, (ast.Return, ast.Raise)):
+            raise _SliceEval.Stop()
+        return
+
+
 def slices(ctx):
     """C13.2 - open-ended line slices follow segyio (segyio.line.sanitize_slice): an absent or positive step runs
     towards larger line numbers - default start min(keys), default stop max(keys) + 1 - a negative step the other way
     - default start max(keys), default stop min(keys) - 1; the default step is positive whichever way the axis is
-    stored.  First / last keys are the extremes only on an ascending axis."""
+    stored.  First / last keys are the extremes only on an ascending axis.  Decided by abstract execution of the
+    accessor's __getitem__ for every combination of absent components and step sign (12 scenarios): the three
+    arguments of the final range(..) are read off as given component / extreme of the keys + offset / step form."""
     P = ctx.P
     n = 0
+    names = {'first': 'the first key', 'last': 'the last key', 'min': 'min(keys)', 'max': 'max(keys)'}
     for c in [P.cls('accessors.Accessor')] + P.cls('accessors.Accessor').all_subclasses():
         gi = c.methods.get('__getitem__')
         if gi is None or 'keys_object' not in U(gi.node):
             continue
-        st_step, d_step = _default_of(gi, 'step')
-        st_start, d_start = _default_of(gi, 'start')
-        st_stop, d_stop = _default_of(gi, 'stop')
-        if d_step is None or d_start is None or d_stop is None:
+        reported = set()
+        seen_range = False
+        for step in (None, '+', '-'):
+            for has_start in (False, True):
+                for has_stop in (False, True):
+                    ev = _SliceEval(gi, {'start': has_start, 'stop': has_stop, 'step': step})
+                    try:
+                        ev.run(gi.node.body)
+                    except _SliceEval.Stop:
+                        pass
+                    if ev.range_args is None:
+                        continue
+                    seen_range = True
+                    inc = step != '-'
+                    a0, a1, a2 = ev.range_args
+                    site = ev.range_node
+                    for what, got, present, want in (('start', a0, has_start, ('EXT', 'min', 0) if inc else ('EXT', 'max', 0)),
+                                                     ('stop', a1, has_stop, ('EXT', 'max', 1) if inc else ('EXT', 'min', -1))):
+                        if present:
+                            if got != ('GIVEN', what):
+                                if (what, 'given') not in reported:
+                                    reported.add((what, 'given'))
+                                    ctx.fail('C13.2', gi, site, 'an explicit slice %s does not reach range(..) unchanged (it becomes %r)' % (what, got),
+                                             key_extra=what + '-given')
+                            continue
+                        if not (isinstance(got, tuple) and got[0] == 'EXT'):
+                            raise AnalysisError('%s: default %s `%r` follows no recognised idiom' % (gi.qualname, what, got))
+                        if got != want and (what, inc) not in reported and (what, 'any') not in reported:
+                            reported.add((what, inc))
+                            reported.add((what, 'any'))
+                            ctx.fail('C13.2', gi, ev.sites.get(what) or site, 'default %s of a slice running %s is %s%+d; segyio uses %s%+d%s' % (
+                                what, 'upwards (step absent or positive)' if inc else 'downwards (negative step)',
+                                names[got[1]], got[2], names[want[1]], want[2],
+                                ': the first / last key is the extreme only on an ascending axis' if got[1] in ('first', 'last') else ''),
+                                key_extra=what)
+                    if step is None:
+                        if a2 == ('STEP', 'abs') or (isinstance(a2, tuple) and a2[0] == 'CONST' and a2[1] > 0):
+                            pass
+                        elif a2 == ('STEP', 'raw'):
+                            if 'step' not in reported:
+                                reported.add('step')
+                                ctx.fail('C13.2', gi, ev.sites.get('step') or site, 'the default step is keys[1] - keys[0], negative on a '
+                                         'descending axis: f.iline[:] and iteration then run against segyio\'s order (ascending line '
+                                         'numbers) and f.iline[a:b] with a < b is empty', key_extra='step')
+                        else:
+                            raise AnalysisError('%s: default step `%r` follows no recognised idiom' % (gi.qualname, a2))
+                    elif a2 != ('GIVEN', 'step') and 'stepgiven' not in reported:
+                        reported.add('stepgiven')
+                        ctx.fail('C13.2', gi, site, 'an explicit slice step does not reach range(..) unchanged (it becomes %r)' % (a2,),
+                                 key_extra='step-given')
+        if not seen_range:
             raise AnalysisError('%s: defaults of an open-ended line slice were not recognised' % gi.qualname)
         n += 1
-        # default step: positive for both storage orders
-        v = d_step
-        while isinstance(v, ast.Call) and U(v.func) == 'int' and v.args:
-            v = v.args[0]
-        if isinstance(v, ast.Call) and U(v.func).split('.')[-1] in ('abs', 'absolute', 'fabs'):
-            ctx.ok('C13.2', gi, st_step, 'default step is |line increment| (positive for ascending and descending axes)')
-        elif isinstance(v, ast.Constant) and isinstance(v.value, int) and v.value > 0:
-            ctx.ok('C13.2', gi, st_step, 'default step is a positive constant')
-        elif isinstance(v, ast.BinOp) and isinstance(v.op, ast.Sub) and 'keys_object[1]' in U(v.left) and 'keys_object[0]' in U(v.right):
-            ctx.fail('C13.2', gi, st_step, 'the default step is keys[1] - keys[0], negative on a descending axis: f.iline[:] and '
-                     'iteration then run against segyio\'s order (ascending line numbers) and f.iline[a:b] with a < b is empty')
-        else:
-            raise AnalysisError('%s: default step `%s` follows no recognised idiom' % (gi.qualname, U(d_step)[:50]))
-        for what, st, d, want in (('start', st_start, d_start, {True: ('min', 0), False: ('max', 0)}),
-                                  ('stop', st_stop, d_stop, {True: ('max', 1), False: ('min', -1)})):
-            bad = None
-            for inc in (True, False):
-                got = _extreme(d, inc, gi)
-                if got is None:
-                    raise AnalysisError('%s: default %s `%s` follows no recognised idiom' % (gi.qualname, what, U(d)[:60]))
-                if got != want[inc]:
-                    bad = (inc, got)
-                    break
-            if bad:
-                inc, got = bad
-                names = {'first': 'the first key', 'last': 'the last key', 'min': 'min(keys)', 'max': 'max(keys)'}
-                ctx.fail('C13.2', gi, st, 'default %s of a slice running %s is %s%+d; segyio uses %s%+d%s' % (
-                    what, 'upwards (step absent or positive)' if inc else 'downwards (negative step)',
-                    names[got[0]], got[1], names[want[inc][0]], want[inc][1],
-                    ': the first / last key is the extreme only on an ascending axis' if got[0] in ('first', 'last') else ''),
-                    key_extra=what)
-            else:
-                ctx.ok('C13.2', gi, st, 'default %s = min/max of the keys in the direction of travel, as segyio' % what)
+        for what in ('step', 'start', 'stop'):
+            if not any(r == what or (isinstance(r, tuple) and r[0] == what) for r in reported):
+                ctx.ok('C13.2', gi, '%s default' % what, 'default %s as segyio: %s' % (
+                    what, '|line increment|' if what == 'step' else 'min/max of the keys in the direction of travel'))
     if n < 1:
         raise AnalysisError('no open-ended line-slice default found in the accessors')
 
